@@ -99,7 +99,8 @@ impl Kernels {
                 let strict = &xs[r..r + self.n_strict()];
                 let rest = &xs[r + self.n_strict()..];
                 let ga = tri_grid(self.upper, r, diag, strict);
-                let a = sp_from(&ga, r, r, self.stored_zeros, Some(self.upper));
+                // stored-zero variant: explicit zeros everywhere, also on the wrong side of the diagonal (valid: is_triang ignores stored zeros)
+                let a = sp_from(&ga, r, r, self.stored_zeros, None);
                 let gy: Grid<R> = build_grid_r::<R>(r, k, &rest[..r * k]);
                 let gy2: Grid<R> = build_grid_r::<R>(r, k, &rest[r * k..2 * r * k]);
                 let gz: Grid<R> = build_grid_r::<R>(k, r, &rest[2 * r * k..3 * r * k]);
